@@ -3,6 +3,7 @@ import z3
 
 from pyvc import sym, arr
 from pyvc.harness import Unit
+from pyvc import harness as _h
 from pyvc.meshmodel import compare_blocks
 from pyvc.sym import SB, SC, SI, SR, check, explore, assume
 from checks import ops_common as oc, c02, c10, init_common as ic
@@ -238,6 +239,14 @@ def run_terminal_info(mutate=None):
     return dict(obls=obls, paths=n, sources=[L.info()], consistent=True)
 
 
+
+def _bounded_quick():
+    r1 = replay_terminal_info({})
+    r2 = replay_two_solvers({})
+    bad = list(r1.get('failing_history') or []) + list(r2.get('failing_history') or [])
+    return bad, 2
+
+
 def units():
     return [
         Unit("build_laplacian[pinned rows]", F + "build_laplacian", run_pinned_rows, props=["C06"], timeout=600),
@@ -247,7 +256,7 @@ def units():
         Unit("Device.terminal_info", "tdgl.device.device:Device.terminal_info", run_terminal_info, props=["C06"], timeout=300),
         Unit("TDGLSolver.__init__[two solvers on one mesh]", "tdgl.solver.solver:TDGLSolver.__init__", lambda m=None: ic.run_init(m, prefixes=("C06.",), again=True), props=["C06"], timeout=900),
         Unit("step_at_pinned_site[terminal_psi!=0]", "tdgl.solver.solver:TDGLSolver.solve_for_psi_squared", run_step_nonzero, props=["C06"], timeout=300),
-    ]
+            _h.bounded_unit("pinned sites of real devices [bounded]", "Device.terminal_info / TDGLSolver (real runs)", "C06", _bounded_quick, "terminal_sites_follow_the_device_and_each_solver_pins_its_own", timeout=900)]
 
 
 def replay_terminal_info(obl):
@@ -340,6 +349,9 @@ def replay_two_solvers(obl):
 
 
 def replay(unit, obl):
+    if "bounded" in unit:
+        bad, n = _bounded_quick()
+        return dict(confirmed=bool(bad), failing_input=(bad or [None])[0], evaluations=n)
     if unit.startswith("TDGLSolver.__init__"):
         return replay_two_solvers(obl)
     if unit == "Device.terminal_info":
